@@ -28,7 +28,7 @@ const (
 var c08Tris = []string{"excludesSpecialPaths", "planOrBypassOnSubGroups", "planShape", "scanEqCanonical",
 	"bucketPagingAfterFilter", "scanPagingAfterFilter", "labelReattach", "pagedQueriesBypass", "bucketChecksAttr",
 	"lookupInDedupes", "unionDedupes", "bucketWindowTimeOnly", "execPreconditions", "extractorsStandard", "canonStandard", "scanLeafStandard",
-	"bucketNotifyInsert", "bucketNotifyUpdate", "bucketNotifyDelete", "bucketPendingReplayed", "readerDrainsInFlight", "bucketLifecycleStandard", "windowConversionAlike"}
+	"bucketNotifyInsert", "bucketNotifyUpdate", "bucketNotifyDelete", "bucketPendingReplayed", "readerDrainsInFlight", "bucketNotifyAfterAdd", "bucketLifecycleStandard", "windowConversionAlike"}
 
 var c08OpNames = map[string][2]string{ // proto name → (Lean constructor, show)
 	"hydrapb.Relational_EQUAL": {".eq", "eq"}, "hydrapb.Relational_NOT_EQUAL": {".ne", "ne"},
@@ -168,6 +168,7 @@ func c08Plan(fs *Facts, f *File) {
 		f.Contains(and.Body, "for i, sub := range group.GetSubGroups() { subPlan := PlanFilter(sub) if subPlan.Mode != PlanModeOrUnion { continue } return Plan{ Mode: PlanModeAnd, Hints: subPlan.Hints, Residual: removeSubGroupAt(group, i), } }") &&
 		f.Contains(or.Body, "for _, leg := range group.GetFilters() { hint, ok := indexableHint(leg) if !ok { return Plan{Mode: PlanModeBypass} } hints = append(hints, hint) }") &&
 		f.Contains(or.Body, "if len(hints) == 0 { return Plan{Mode: PlanModeBypass} } return Plan{Mode: PlanModeOrUnion, Hints: hints, Residual: nil}")
+	shape = shape && c08ResidualCarriesAll(f)
 	if shape {
 		fs.Tri("planShape", Yes, c08At(c08Planner, f, pf))
 	}
@@ -415,3 +416,55 @@ func c08Shapes(fs *Facts) {
 var c08StreamVocabulary = []string{"collectBucketCandidates", "applyTimeRange", "sortCandidates", "applyFromLimit", "hasAnyLabels", "PlanFilter",
 	"bucketExecPreconditions", "parseOptionalTimestamps", "buildKeySet", "evaluateNativeFilterGroup", "evaluateNativeFilterGroupWithMeta",
 	"inputIndexTypeToBeaconType", "inputOrderTypeToBeaconOrderType", "checkSwampName", "treasureToKeyValuePair", "handlePanic"}
+
+// The residual is the group minus the hinted leg: cloneGroupHeader copies EVERY field of
+// hydrapb.FilterGroup (the list is read off the generated struct, so a new kind of leg is noticed),
+// removeFilterAt / removeSubGroupAt start from that copy and drop exactly position i.
+func c08ResidualCarriesAll(f *File) bool {
+	ch := f.Func("", "cloneGroupHeader")
+	rf := f.Func("", "removeFilterAt")
+	rs := f.Func("", "removeSubGroupAt")
+	if ch == nil || rf == nil || rs == nil {
+		return false
+	}
+	c07Canon(ch, []string{"g"})
+	c07Canon(rf, []string{"group", "i", "src", "out"})
+	c07Canon(rs, []string{"group", "i", "src", "out"})
+	pb, err := Load("sdk/go/hydraidego/hydraidepbgo/hydraide.pb.go")
+	if err != nil {
+		return false
+	}
+	var fields []string
+	ast.Inspect(pb.AST, func(x ast.Node) bool {
+		ts, ok := x.(*ast.TypeSpec)
+		if !ok || ts.Name.Name != "FilterGroup" {
+			return true
+		}
+		if st, ok := ts.Type.(*ast.StructType); ok {
+			for _, fl := range st.Fields.List {
+				for _, n := range fl.Names {
+					if n.IsExported() {
+						fields = append(fields, n.Name)
+					}
+				}
+			}
+		}
+		return false
+	})
+	if len(fields) < 3 {
+		return false
+	}
+	body := f.Str(ch.Body)
+	for _, fld := range fields {
+		if !strings.Contains(body, fld+": g.Get"+fld+"(),") {
+			return false
+		}
+	}
+	if strings.Count(body, ": g.Get") != len(fields) || !strings.HasPrefix(body, "{ return &hydrapb.FilterGroup{") {
+		return false
+	}
+	drop := func(fd *ast.FuncDecl, getter, field, elem string) bool {
+		return f.Str(fd.Body) == "{ src := group."+getter+"() if i < 0 || i >= len(src) { return cloneGroupHeader(group) } out := cloneGroupHeader(group) if len(src) <= 1 { out."+field+" = nil } else { out."+field+" = make([]*hydrapb."+elem+", 0, len(src)-1) out."+field+" = append(out."+field+", src[:i]...) out."+field+" = append(out."+field+", src[i+1:]...) } return out }"
+	}
+	return drop(rf, "GetFilters", "Filters", "TreasureFilter") && drop(rs, "GetSubGroups", "SubGroups", "FilterGroup")
+}
